@@ -215,8 +215,8 @@ def runner(rep, tier, seed, replay):
         rnd.shuffle(idxs)
         chosen += idxs[:2]
     # stratified sample of the lines that tokenize the same: one line per stratum, round robin, until the budget is used
-    # (thorough: every line)
-    budget = 1800 if tier == "quick" else len(same)
+    # (thorough: 60 000 lines)
+    budget = 1800 if tier == "quick" else 60000
     strata = {}
     for i in same:
         c = cases[i]
